@@ -367,6 +367,9 @@ def plan(tier: str, seed: int, scale: float = 1.0) -> List[Dict[str, Any]]:
     nr = int((1500 if tier == "quick" else 12000) * scale)
     specs += [{"kind": "random", "seed": seed * 100 + i, "n": nr} for i in range(8 if tier == "quick" else 16)]
     nf = int((4000 if tier == "quick" else 40000) * scale)
+    from .fuzz_expr import ensure_atheris
+
+    ensure_atheris()
     specs += [{"kind": "fuzz", "seed": seed * 100 + 50 + i, "n": nf} for i in range(2 if tier == "quick" else 12)]
     return specs
 
